@@ -121,5 +121,5 @@ ValB == Val1(K2, RI)
 ValC == OpAdd(Val1(K1, Neg(ROne)), Val1(K3, ROne))
 ValsFixed == {ValA, ValB, ValC}
 \* degenerate values: the empty operator (no terms at all) and the identity-only operator
-ValId == Val1(IdKey, FromInt(2))
+ValId == Val1(IdKey, ROne)              \* the unit operator (neutral element of the product)
 =============================================================================
